@@ -1,4 +1,4 @@
 From Coq Require Import ExtrOcamlBasic NArith.
-From LLRP Require Import Client.Status Client.StatusExchange Client.StatusDriver Client.StatusWire.
+From LLRP Require Import Client.Status Client.StatusExchange Client.StatusDriver Client.StatusWire Client.StatusLimit.
 Extraction Language OCaml.
-Extraction "model.ml" send_for_outcome status_err decoded_wf status_types is_status_type flatten_ope default_text_ref ref_in_table xresults try_send ts_err wresults.
+Extraction "model.ml" send_for_outcome status_err decoded_wf status_types is_status_type flatten_ope default_text_ref ref_in_table xresults try_send ts_err wresults reply_bytes MaxBufferedPayloadSz.
